@@ -315,6 +315,21 @@ impl World {
             Fault::WrongAad(b) => aad = b.0.clone(),
             Fault::Garbage(b) => bytes = b.0.clone(),
             Fault::TagExtend(b) => bytes.extend_from_slice(b),
+            Fault::ByteSet(f, idx, val) => {
+                let (start, len) = match f {
+                    Field::Ct => (0, body_len),
+                    Field::Tag => (body_len, bytes.len() - body_len),
+                    Field::Aad => (0, aad.len()),
+                };
+                if len > 0 {
+                    let i = if *idx >= 0 { (*idx as usize).min(len - 1) } else { len - ((-*idx) as usize).min(len) };
+                    if *f == Field::Aad {
+                        aad[i] = *val;
+                    } else {
+                        bytes[start + i] = *val;
+                    }
+                }
+            }
         }
         let fired = bytes != rec.ct || aad != rec.aad;
         (bytes, aad, fired)
@@ -349,6 +364,7 @@ impl World {
             Fault::WrongAad(_) => "wrong_aad",
             Fault::Garbage(_) => "garbage",
             Fault::TagExtend(_) => "tag_extend",
+            Fault::ByteSet(..) => "byte_set",
         }
     }
 
@@ -643,6 +659,14 @@ impl World {
         variants.push(Fault::Extend(ct[body_len..].to_vec().into()));
         for n in [1usize, 2, 16] {
             variants.push(Fault::TagExtend(vec![0u8; n].into()));
+        }
+        // value-dependent branches: special byte values at the ends of every field
+        for f in [Field::Ct, Field::Tag, Field::Aad] {
+            for idx in [0i32, 1, -1, -2] {
+                for val in [0x00u8, 0x01, 0x7f, 0x80, 0xff] {
+                    variants.push(Fault::ByteSet(f, idx, val));
+                }
+            }
         }
         variants.push(Fault::TagExtend(ct[body_len..].to_vec().into()));
         variants.push(Fault::Insert(vec![0u8; 1].into()));
